@@ -47,3 +47,9 @@ claim("C16", "exploration",
       "fix->float->fix identity, element-wise/shape agreement and two's-complement agreement of deprecated variants are checked.",
       "Exhaustive over the breakpoint alphabet, not the float line; float64 inputs; inverse only for values a double holds exactly.",
       "DESIGN.md section 4, C16")
+claim("C19", "exploration",
+      "Complete enumeration: W,H in {12,24,36} x all 144 root offsets x every chip against an independent board-tile model (48-chip "
+      "hexagon, Ethernet chips at (0,0),(4,8),(8,4)+12Z^2): local Ethernet chip, on-board coordinate, Ethernet chip list; ragged sizes; "
+      "every (chip, link) for FPGA links (presence iff the link leaves the board, 48 distinct ids) also through machine coordinates "
+      "and root offsets; board counts 0..3000 for standard dimensions.",
+      "Tile model written in /verif from the documented board shape.", "DESIGN.md section 4, C19")
